@@ -23,8 +23,16 @@ ERRNO = {
 CWD = "/sim"
 # real top-level directories that must stay reachable (the interpreter, the repository, /dev/null ...)
 REAL_TOP_LEVEL = {"/" + d for d in ("bin", "boot", "dev", "etc", "home", "lib", "lib32", "lib64", "libx32", "media", "mnt", "opt",
-                                    "proc", "repo", "root", "run", "sbin", "srv", "sys", "tmp", "usr", "var", "venv", "verif", "w")}
+                                    "proc", "repo", "root", "run", "sbin", "srv", "sys", "usr", "var", "venv", "verif", "w")}
+SIM_TMP = "/tmp"   # the temporary directory of the simulated process is a simulated directory too
 FD_BASE = 7000
+
+
+def _mkstat(mode, ino, nlink, size, mtime):
+    """os.stat_result with the optional fields programs commonly read (st_blksize, st_blocks, st_rdev)."""
+    return os.stat_result((mode, ino, 1, nlink, 0, 0, size, mtime, mtime, mtime),
+                          {"st_blksize": 4096, "st_blocks": (size + 511) // 512, "st_rdev": 0,
+                           "st_atime": float(mtime), "st_mtime": float(mtime), "st_ctime": float(mtime)})
 
 
 def _oserror(name: str, path=None):
@@ -176,13 +184,54 @@ class SimRaw(io.RawIOBase):
             raise _oserror(f["kind"], self.path)
 
 
+class SimRawView(io.RawIOBase):
+    """What `open(fd, ..., closefd=False)` gives: a file object over an existing descriptor whose
+    close() leaves the descriptor open.  Position and data are those of the descriptor."""
+
+    def __init__(self, raw: SimRaw):
+        super().__init__()
+        self._raw = raw
+        self.name = raw.name
+        self.mode = raw.mode
+
+    def readable(self):
+        return self._raw.readable()
+
+    def writable(self):
+        return self._raw.writable()
+
+    def seekable(self):
+        return self._raw.seekable()
+
+    def isatty(self):
+        return self._raw.isatty()
+
+    def fileno(self):
+        return self._raw.fileno()
+
+    def readinto(self, b):
+        return self._raw.readinto(b)
+
+    def write(self, b):
+        return self._raw.write(b)
+
+    def seek(self, offset, whence=0):
+        return self._raw.seek(offset, whence)
+
+    def tell(self):
+        return self._raw.tell()
+
+    def truncate(self, size=None):
+        return self._raw.truncate(size)
+
+
 class SimFS:
     """files: path -> bytearray; dirs: set of paths; ro: set of read-only paths (file or dir);
     unreadable: set of paths that cannot be opened for reading."""
 
     def __init__(self, files: dict, dirs, ro=(), unreadable=(), roles=None, plan=None, knobs=None):
         self.files = {self.norm(p): bytearray(v) for p, v in files.items()}
-        self.dirs = {self.norm(d) for d in dirs} | {CWD, "/"}
+        self.dirs = {self.norm(d) for d in dirs} | {CWD, "/", SIM_TMP}
         self.ro = {self.norm(p) for p in ro} | {"/"}
         self.unreadable = {self.norm(p) for p in unreadable}
         self.roles = {self.norm(p): r for p, r in (roles or {}).items()}
@@ -240,6 +289,8 @@ class SimFS:
             # the root directory and names directly under it belong to the simulated tree too (a
             # read-only root): the parent of the working directory must never be the real "/"
             if n == "/" or (posixpath.dirname(n) == "/" and n not in REAL_TOP_LEVEL):
+                return True
+            if n == SIM_TMP or n.startswith(SIM_TMP + "/"):
                 return True
             return n.startswith(CWD + "/") or n == CWD
         except TypeError:
@@ -408,6 +459,9 @@ class SimFS:
             raw._append = True
         if closefd:
             raw._fd_owned = fd
+        else:
+            raw = SimRawView(raw)
+            raw._r, raw._w = raw._raw._r, raw._raw._w
         return self._wrap(raw, mode, buffering, encoding, errors, newline, binary, want_read and raw._r, want_write, updating and raw._r)
 
     def os_open(self, path, flags, mode=0o777, *, dir_fd=None):
@@ -503,22 +557,22 @@ class SimFS:
             import stat as _stat
 
             kind = _stat.S_IFCHR if raw.isatty() else _stat.S_IFIFO
-            return os.stat_result((kind | 0o620, 3, 1, 1, 0, 0, 0, 0, 0, 0))
+            return _mkstat(kind | 0o620, 3, 1, 0, 0)
         return self._stat_result(raw.path)
 
     def _stat_result(self, p):
         import stat as _stat
 
         if p in self.dirs:
-            return os.stat_result((_stat.S_IFDIR | 0o755, 1, 1, 1, 0, 0, 4096, 0, 0, 0))
+            return _mkstat(_stat.S_IFDIR | (0o555 if p in self.ro else 0o755), 1 + (sum(p.encode()) & 0xFFF), 2, 4096, 1000)
         if p in self.files and p in self.fifos:
-            return os.stat_result((_stat.S_IFIFO | 0o600, sum(p.encode()) & 0xFFFF, 1, 1, 0, 0, 0, 0, 0, 0))
+            return _mkstat(_stat.S_IFIFO | 0o600, sum(p.encode()) & 0xFFFF, 1, 0, 1000)
         if p in self.files:
             mode = 0o444 if p in self.ro else 0o644
             mt = int(self.mtimes.get(p, 1000.0))
             ino = self._inos.setdefault(id(self.files[p]), 1000 + len(self._inos))
             nlink = sum(1 for o in self.files.values() if o is self.files[p])
-            return os.stat_result((_stat.S_IFREG | mode, ino, 1, nlink, 0, 0, len(self.files[p]), mt, mt, mt))
+            return _mkstat(_stat.S_IFREG | mode, ino, nlink, len(self.files[p]), mt)
         raise FileNotFoundError(_errno.ENOENT, os.strerror(_errno.ENOENT), p)
 
     def os_stat(self, path, *a, **kw):
@@ -531,7 +585,7 @@ class SimFS:
 
         p = self.norm(path)
         if p in self.links:
-            return os.stat_result((_stat.S_IFLNK | 0o777, sum(p.encode()) & 0xFFFF, 1, 1, 0, 0, len(self.links[p]), 0, 0, 0))
+            return _mkstat(_stat.S_IFLNK | 0o777, sum(p.encode()) & 0xFFFF, 1, len(self.links[p]), 1000)
         return self._stat_result(p)
 
     def os_link(self, src, dst, *a, **kw):
@@ -929,7 +983,8 @@ class Patches:
                     raw = fs.fds[file]
                     if closefd:
                         raw._fd_owned = file
-                    return raw
+                        return raw
+                    return SimRawView(raw)
                 return real_FileIO(file, mode, closefd, opener)
             if fs.is_sim(file):
                 return fs.open(file, mode if "b" in mode else mode + "b", buffering=0, opener=opener)
@@ -959,7 +1014,7 @@ class Patches:
         except ImportError:
             pass
 
-    def install_determinism(self, seed: int):
+    def install_determinism(self, seed: int, invocation: int = 0):
         """Sources of nondeterminism a command-line program commonly uses for temporary names and
         time stamps, put behind the simulator: process id, clocks, tempfile's private generator,
         uuid, os.urandom (Python-level callers)."""
@@ -969,14 +1024,15 @@ class Patches:
         import time as _time
         import uuid as _uuid
 
-        rng = _random.Random(seed)
-        clock = [1_700_000_000.0]
+        # a later invocation is another process at another time: other pid, other temp names
+        rng = _random.Random(seed * 1000003 + invocation)
+        clock = [1_700_000_000.0 + 3600.0 * invocation]
 
         def now():
             clock[0] += 0.001
             return clock[0]
 
-        self._set(_os, "getpid", lambda: 4242)
+        self._set(_os, "getpid", lambda: 4242 + 17 * invocation)
         self._set(_os, "getppid", lambda: 4241)
         self._set(_time, "time", now)
         self._set(_time, "time_ns", lambda: int(now() * 1e9))
@@ -987,7 +1043,7 @@ class Patches:
         self._set(_uuid, "uuid4", lambda: _uuid.UUID(int=rng.getrandbits(128), version=4))
         self._set(_uuid, "uuid1", lambda *a, **k: _uuid.UUID(int=rng.getrandbits(128), version=1))
         self._set(_tempfile._RandomNameSequence, "rng", property(lambda self_: rng))
-        self._set(_tempfile, "tempdir", None)
+        self._set(_tempfile, "tempdir", SIM_TMP)
 
     def uninstall(self):
         for mod, name, val in reversed(self.saved):
